@@ -108,13 +108,13 @@ func (s *Server) rejectPrivateAndLoopbackIPAction(_ context.Context, in egress.I
 		isWellKnownIPv4LocalDomainName := false
 		isWellKnownIPv6LocalDomainName := false
 		for _, d := range wellKnownIPv4LocalDomainNames {
-			if domainName == d {
+			if strings.EqualFold(domainName, d) {
 				isWellKnownIPv4LocalDomainName = true
 				break
 			}
 		}
 		for _, d := range wellKnownIPv6LocalDomainNames {
-			if domainName == d {
+			if strings.EqualFold(domainName, d) {
 				isWellKnownIPv6LocalDomainName = true
 				break
 			}
